@@ -5,7 +5,7 @@ MC     mc/MC_JsonG.tla   the transcription spec/JsonG.tla (Encode = JsonGraph::f
                          well-formed document, scalar classes, independence of the map iteration order, and the
                          isomorphism test itself (two searches agree, perturbations are rejected)
 TRACE  engine `json` (harness/src/eng_json.rs) -> mc/Trace_JsonG.tla
-       fam   family members (stride) decorated with phases of denominators {1,2,3,4,8,16,256}, coordinates,
+       fam   family members (stride) decorated with phases n/d (d in {1,2,3,4,8,16,256} or any d <= 256), coordinates,
              scalars of every class + a list of named diagrams x the scalar catalogue
        rand  seeded random diagrams (<= 7 spiders, <= 4 boundaries, scattered names, H-boxes) and `big`
              diagrams (9..16 spiders, isomorphism by refinement, no denotation)
@@ -66,7 +66,7 @@ def plan(prop, tier, seed, t0):
         "the harness's projection of the emitted JSON text (own phase-string and scalar-field reader, harness/src/eng_json.rs) is what "
         "'another reader' understands; serde_json's parser is trusted for byte syntax",
         "floating-point clauses (inexact scalars) are decided by the harness at relative 1e-9 on complex doubles, not by TLC",
-        "coordinates are multiples of 0.1 in [-5, 12]; phases have denominators in {1,2,3,4,8,16,256}; scalars are sqrt2^p e^{i k pi/4}, "
+        "coordinates are multiples of 0.1 in [-5, 12]; phases have denominators in {1,2,3,4,8,16,256} or drawn from 1..256; scalars are sqrt2^p e^{i k pi/4}, "
         "generic elements of Z[omega] scaled by powers of two, 0 and 1",
     ]
 
